@@ -351,6 +351,13 @@ def fresh_module_state():
         if mod is None or not (modname == "odml" or modname.startswith("odml.")):
             continue
         for name, val in list(vars(mod).items()):
+            if not name.startswith("__") and type(val).__name__ == "_lru_cache_wrapper":
+                try:
+                    if str(getattr(val, "__module__", "")).startswith("odml"):
+                        val.cache_clear()   # a memoised function of the package is process state too
+                except Exception:
+                    pass
+                continue
             if name.startswith("__") or not isinstance(val, (dict, set, list)):
                 continue
             if type(val) not in (dict, set, list):
